@@ -5,6 +5,8 @@ CONSTANTS Configs = {}
   SkipEpochWithoutRow = TRUE
   LoadEveryEngine = FALSE
   LoadOnlyOwnTargets = FALSE
+  MatchWholeSecond = FALSE
+  DedupIgnoresSensor = FALSE
   CrashOnDuplicate = FALSE
   KeepDuplicates = FALSE
   CreateMissingTables = FALSE
